@@ -39,6 +39,7 @@ type c11Flat struct {
 	Method string
 	Path   string
 	IDs    []int
+	Hdr    bool // the registration carries the header constraint X-K: v
 }
 
 type c11World struct {
@@ -96,19 +97,29 @@ func c11Exec(w *c11World, prog []c11Node) (flat []c11Flat, mustReject bool, ambi
 			case "get":
 				own := ids(n.NH)
 				all := append(append([]int{}, outer...), own...)
-				flat = append(flat, c11Flat{"GET", prefix + n.Path, all})
+				flat = append(flat, c11Flat{Method: "GET", Path: prefix + n.Path, IDs: all})
 				if autoHead {
-					flat = append(flat, c11Flat{"HEAD", prefix + n.Path, all})
+					flat = append(flat, c11Flat{Method: "HEAD", Path: prefix + n.Path, IDs: all})
 				}
 				w.f.Get(n.Path, w.hs(own)...)
+			case "get-headers":
+				// Get(...).Headers(...): the constraint belongs to the GET registration the call returns; the
+				// automatic HEAD registration is a registration of its own (flat: Head(...) without constraints)
+				own := ids(n.NH)
+				all := append(append([]int{}, outer...), own...)
+				flat = append(flat, c11Flat{Method: "GET", Path: prefix + n.Path, IDs: all, Hdr: true})
+				if autoHead {
+					flat = append(flat, c11Flat{Method: "HEAD", Path: prefix + n.Path, IDs: all})
+				}
+				w.f.Get(n.Path, w.hs(own)...).Headers("X-K", "v")
 			case "post":
 				own := ids(n.NH)
-				flat = append(flat, c11Flat{"POST", prefix + n.Path, append(append([]int{}, outer...), own...)})
+				flat = append(flat, c11Flat{Method: "POST", Path: prefix + n.Path, IDs: append(append([]int{}, outer...), own...)})
 				w.f.Post(n.Path, w.hs(own)...)
 			case "routes-comma", "routes-multi":
 				own := ids(n.NH)
 				all := append(append([]int{}, outer...), own...)
-				flat = append(flat, c11Flat{"GET", prefix + n.Path, all}, c11Flat{"POST", prefix + n.Path, all})
+				flat = append(flat, c11Flat{Method: "GET", Path: prefix + n.Path, IDs: all}, c11Flat{Method: "POST", Path: prefix + n.Path, IDs: all})
 				if autoHead {
 					ambiguousHead = true
 				}
@@ -122,18 +133,18 @@ func c11Exec(w *c11World, prog []c11Node) (flat []c11Flat, mustReject bool, ambi
 				own := ids(n.NH)
 				all := append(append([]int{}, outer...), own...)
 				for _, m := range c08KnownMethods {
-					flat = append(flat, c11Flat{m, prefix + n.Path, all})
+					flat = append(flat, c11Flat{Method: m, Path: prefix + n.Path, IDs: all})
 				}
 				w.f.Any(n.Path, w.hs(own)...)
 			case "combo", "combo-spare", "combo-dup":
 				common := ids(n.NH)
 				g, p := ids(1), ids(1)
 				base := append(append([]int{}, outer...), common...)
-				flat = append(flat, c11Flat{"GET", prefix + n.Path, append(append([]int{}, base...), g...)})
+				flat = append(flat, c11Flat{Method: "GET", Path: prefix + n.Path, IDs: append(append([]int{}, base...), g...)})
 				if autoHead {
-					flat = append(flat, c11Flat{"HEAD", prefix + n.Path, append(append([]int{}, base...), g...)})
+					flat = append(flat, c11Flat{Method: "HEAD", Path: prefix + n.Path, IDs: append(append([]int{}, base...), g...)})
 				}
-				flat = append(flat, c11Flat{"POST", prefix + n.Path, append(append([]int{}, base...), p...)})
+				flat = append(flat, c11Flat{Method: "POST", Path: prefix + n.Path, IDs: append(append([]int{}, base...), p...)})
 				ch := w.hs(common)
 				if n.Kind == "combo-spare" {
 					sp := make([]flamego.Handler, len(ch), len(ch)+4)
@@ -152,12 +163,16 @@ func c11Exec(w *c11World, prog []c11Node) (flat []c11Flat, mustReject bool, ambi
 	return
 }
 
-func c11Serve(w *c11World, method, path string) (trace string, par string, status int, pan interface{}) {
+func c11Serve(w *c11World, method, path string, hdr ...string) (trace string, par string, status int, pan interface{}) {
 	w.trace, w.par = nil, nil
 	spy := &c01Spy{hdr: http.Header{}}
+	req := newReq(method, path)
+	for i := 0; i+1 < len(hdr); i += 2 {
+		req.Header.Set(hdr[i], hdr[i+1])
+	}
 	func() {
 		defer func() { pan = recover() }()
-		w.f.ServeHTTP(spy, newReq(method, path))
+		w.f.ServeHTTP(spy, req)
 	}()
 	return fmt.Sprint(w.trace), fmtParams(w.par), spy.code, pan
 }
@@ -166,6 +181,7 @@ type c11Case struct {
 	Prog   []c11Node `json:"program"`
 	Method string    `json:"request_method,omitempty"`
 	Path   string    `json:"path,omitempty"`
+	Header []string  `json:"request_header_pairs,omitempty"`
 }
 
 var c11Methods = []string{"GET", "POST", "HEAD", "PUT", "BREW"}
@@ -195,7 +211,10 @@ func c11Judge(prog []c11Node, paths []string, l *core.Local) (bad, kind string, 
 		func() {
 			defer func() { pan2 = recover() }()
 			for _, fl := range flat {
-				w2.f.Route(fl.Method, fl.Path, w2.hs(fl.IDs))
+				rt := w2.f.Route(fl.Method, fl.Path, w2.hs(fl.IDs))
+				if fl.Hdr {
+					rt.Headers("X-K", "v")
+				}
 			}
 		}()
 	} else {
@@ -207,7 +226,10 @@ func c11Judge(prog []c11Node, paths []string, l *core.Local) (bad, kind string, 
 			defer func() { pv = recover() }()
 			dryFlat, mustReject, _ = c11FlattenOnly(prog)
 			for _, fl := range dryFlat {
-				wdry.f.Route(fl.Method, fl.Path, wdry.hs(fl.IDs))
+				rt := wdry.f.Route(fl.Method, fl.Path, wdry.hs(fl.IDs))
+				if fl.Hdr {
+					rt.Headers("X-K", "v")
+				}
 			}
 			return nil
 		}()
@@ -222,14 +244,28 @@ func c11Judge(prog []c11Node, paths []string, l *core.Local) (bad, kind string, 
 	if pan2 != nil {
 		return fmt.Sprintf("the program registers although its flat expansion is refused: %v", pan2), "accepted-but-flat-refused", cs, false
 	}
+	withHdr := false
+	for _, fl := range flat {
+		withHdr = withHdr || fl.Hdr
+	}
 	for _, m := range c11Methods {
 		if m == "HEAD" && ambHead {
 			continue
 		}
-		for _, p := range paths {
+		for pi := 0; pi < 2*len(paths); pi++ {
+			p := paths[pi/2]
+			var hdr []string
+			if pi%2 == 1 {
+				// the request again with the constrained header, for programs that constrain a route
+				if !withHdr {
+					continue
+				}
+				hdr = []string{"X-K", "v"}
+			}
+			cs.Header = hdr
 			l.Evals++
-			t1, p1, s1, e1 := c11Serve(w1, m, p)
-			t2, p2, s2, e2 := c11Serve(w2, m, p)
+			t1, p1, s1, e1 := c11Serve(w1, m, p, hdr...)
+			t2, p2, s2, e2 := c11Serve(w2, m, p, hdr...)
 			if e1 != nil || e2 != nil {
 				cs.Method, cs.Path = m, p
 				return fmt.Sprintf("ServeHTTP panicked: %v / %v", e1, e2), "panic", cs, false
@@ -242,13 +278,14 @@ func c11Judge(prog []c11Node, paths []string, l *core.Local) (bad, kind string, 
 						k = "differs/combo-with-spare-capacity"
 					}
 				}
-				return fmt.Sprintf("request %s %q: grouped registration runs handlers %s {%s} status %d; flat expansion runs %s {%s} status %d", m, p, t1, p1, s1, t2, p2, s2), k, cs, false
+				return fmt.Sprintf("request %s %q headers %v: grouped registration runs handlers %s {%s} status %d; flat expansion runs %s {%s} status %d", m, p, hdr, t1, p1, s1, t2, p2, s2), k, cs, false
 			}
 			if t1 != "[]" {
 				l.NonTrivial++
 			}
 		}
 	}
+	cs.Header = nil
 	return "", "", cs, false
 }
 
@@ -285,31 +322,37 @@ func c11FlattenOnly(prog []c11Node) (flat []c11Flat, mustReject, amb bool) {
 				walk(n.Children, prefix+n.Path, append(append([]int{}, outer...), g...))
 			case "get":
 				all := append(append([]int{}, outer...), ids(n.NH)...)
-				flat = append(flat, c11Flat{"GET", prefix + n.Path, all})
+				flat = append(flat, c11Flat{Method: "GET", Path: prefix + n.Path, IDs: all})
 				if autoHead {
-					flat = append(flat, c11Flat{"HEAD", prefix + n.Path, all})
+					flat = append(flat, c11Flat{Method: "HEAD", Path: prefix + n.Path, IDs: all})
+				}
+			case "get-headers":
+				all := append(append([]int{}, outer...), ids(n.NH)...)
+				flat = append(flat, c11Flat{Method: "GET", Path: prefix + n.Path, IDs: all, Hdr: true})
+				if autoHead {
+					flat = append(flat, c11Flat{Method: "HEAD", Path: prefix + n.Path, IDs: all})
 				}
 			case "post":
-				flat = append(flat, c11Flat{"POST", prefix + n.Path, append(append([]int{}, outer...), ids(n.NH)...)})
+				flat = append(flat, c11Flat{Method: "POST", Path: prefix + n.Path, IDs: append(append([]int{}, outer...), ids(n.NH)...)})
 			case "routes-comma", "routes-multi":
 				all := append(append([]int{}, outer...), ids(n.NH)...)
-				flat = append(flat, c11Flat{"GET", prefix + n.Path, all}, c11Flat{"POST", prefix + n.Path, all})
+				flat = append(flat, c11Flat{Method: "GET", Path: prefix + n.Path, IDs: all}, c11Flat{Method: "POST", Path: prefix + n.Path, IDs: all})
 				if autoHead {
 					amb = true
 				}
 			case "any":
 				all := append(append([]int{}, outer...), ids(n.NH)...)
 				for _, m := range c08KnownMethods {
-					flat = append(flat, c11Flat{m, prefix + n.Path, all})
+					flat = append(flat, c11Flat{Method: m, Path: prefix + n.Path, IDs: all})
 				}
 			case "combo", "combo-spare", "combo-dup":
 				base := append(append([]int{}, outer...), ids(n.NH)...)
 				g, p := ids(1), ids(1)
-				flat = append(flat, c11Flat{"GET", prefix + n.Path, append(append([]int{}, base...), g...)})
+				flat = append(flat, c11Flat{Method: "GET", Path: prefix + n.Path, IDs: append(append([]int{}, base...), g...)})
 				if autoHead {
-					flat = append(flat, c11Flat{"HEAD", prefix + n.Path, append(append([]int{}, base...), g...)})
+					flat = append(flat, c11Flat{Method: "HEAD", Path: prefix + n.Path, IDs: append(append([]int{}, base...), g...)})
 				}
-				flat = append(flat, c11Flat{"POST", prefix + n.Path, append(append([]int{}, base...), p...)})
+				flat = append(flat, c11Flat{Method: "POST", Path: prefix + n.Path, IDs: append(append([]int{}, base...), p...)})
 				if n.Kind == "combo-dup" {
 					mustReject = true
 				}
@@ -321,7 +364,7 @@ func c11FlattenOnly(prog []c11Node) (flat []c11Flat, mustReject, amb bool) {
 }
 
 func c11Leaves(thorough bool) []c11Node {
-	kinds := []string{"get", "post", "routes-comma", "routes-multi", "any", "combo", "combo-spare", "combo-dup"}
+	kinds := []string{"get", "get-headers", "post", "routes-comma", "routes-multi", "any", "combo", "combo-spare", "combo-dup"}
 	paths := []string{"/a", "/{x}"}
 	nhs := []int{1}
 	if thorough {
@@ -452,7 +495,7 @@ func c11Run(r *core.Run) {
 	}
 	progs := c11Programs(r.Thorough())
 	paths := c11Paths(r.Thorough())
-	r.Rule = "engine E over registration programs: sequences of leaves {Get, Post, Routes(comma list), Routes(several method strings), Any, Combo.Get.Post (also with a spare-capacity caller slice, and the same method twice), AutoHead on/off} inside 0..2 levels of Group(prefix, 0..2 handlers); each program is executed through the real grouping API on one Flame and as its flat single-method expansion (concatenated paths and handler-id lists) on a second Flame; every request (5 methods x all paths up to 2-3 segments over the program's literals) must run the same handler ids in the same order with the same parameters; non-trivial = request that runs at least one handler"
+	r.Rule = "engine E over registration programs: sequences of leaves {Get, Get(...).Headers(...), Post, Routes(comma list), Routes(several method strings), Any, Combo.Get.Post (also with a spare-capacity caller slice, and the same method twice), AutoHead on/off} inside 0..2 levels of Group(prefix, 0..2 handlers); each program is executed through the real grouping API on one Flame and as its flat single-method expansion (concatenated paths and handler-id lists) on a second Flame; every request (5 methods x all paths up to 2-3 segments over the program's literals) must run the same handler ids in the same order with the same parameters; non-trivial = request that runs at least one handler"
 	r.Bounds["programs"] = len(progs)
 	r.Bounds["paths"] = len(paths)
 	r.Bounds["methods"] = c11Methods
